@@ -390,6 +390,21 @@ pub fn registers_used(p: &Program) -> Vec<Reg> {
     v
 }
 
+/// every label name the program mentions, defined or only used
+pub fn labels_mentioned(p: &Program) -> Vec<String> {
+    let mut v = labels_defined(p);
+    for i in p.insts() {
+        let l = match i {
+            Inst::Jal(_, l) | Inst::Branch(_, _, _, l) | Inst::La(_, l) => l.clone(),
+            _ => continue,
+        };
+        if !v.contains(&l) {
+            v.push(l);
+        }
+    }
+    v
+}
+
 pub fn labels_defined(p: &Program) -> Vec<String> {
     p.stmts
         .iter()
